@@ -1498,5 +1498,87 @@ theorem value_shift (lc : LC.LinComb F) (σ : Label → F) (m : Label) (δ : F) 
       · have : ¬ (LC.LCTerm.poly l = LC.LCTerm.poly m) := by intro hx; injection hx with hx; exact h hx
         simp [h, this]; ring
 
+/-! ### combination openings reduce to a batch over committed polynomials -/
+
+/-- what `open_combinations` / `check_combinations` hand to `batch_open` / `batch_check`: honest
+triples, the same commitments on both sides, and true (adjusted) values -/
+theorem lc_reduction (ck : CK F) (polys : List (LPoly F)) (comms : List (LComm F)) (sts : List (Rand F))
+    (hall : AllCommitted ck polys comms sts) (hnf : ∀ p ∈ polys, pnorm p.poly = p.poly)
+    (lcs : List (LC.LinComb F)) (qs : List (Query F)) (evals : List ((Label × F) × F))
+    (hev : ∀ g ∈ Marlin.groupQueries qs, ∀ l ∈ g.2.2, ∀ lc,
+      Marlin.lookupLast (fun (lc : LC.LinComb F) => lc.label) l lcs = some lc →
+      Marlin.lookupEval evals l g.2.1
+        = some (lcPolyValue (polys.zip (sts.zip comms)) g.2.1 lc.terms + constSum lcs l))
+    (ξs ros : List F) (rng : Bool) (draws : List F) (πs : List (Proof F)) (ξr ror dr : List F)
+    (ho : openCombinations ck lcs polys comms sts qs ξs ros rng draws = .ok (πs, ξr, ror, dr)) :
+    ∃ as, verifierComms comms lcs = .ok (lcComms as) ∧
+      AllCommitted ck (lcPolys as) (lcComms as) (lcStates as) ∧
+      (∀ p ∈ lcPolys as, pnorm p.poly = p.poly) ∧
+      TrueEvals (lcPolys as) (lcComms as) (lcStates as) (adjustEvals lcs evals) (Marlin.groupQueries qs) ∧
+      batchOpen ck (lcPolys as) (lcComms as) (lcStates as) qs ξs ros rng draws = .ok (πs, ξr, ror, dr) := by
+  have hok := tripsOK_of_all ck polys comms sts hall hnf
+  have hag := lookupAgree_of_all ck polys comms sts hall hnf
+  unfold openCombinations at ho
+  split at ho
+  · cases ho
+  · rename_i as has
+    have hgood : ∀ a ∈ as, LCGood ck a := by
+      intro a ha
+      obtain ⟨lc, _, hlc⟩ := combineAllP_mem _ lcs as has a ha
+      exact (combineOneP_good ck _ hok lc a hlc).1
+    have hal : ∀ a ∈ as, a.shifted.isSome = a.bound.isSome := fun a ha => good_aligned ck a (hgood a ha)
+    rw [construct_aligned as hal] at ho
+    simp only at ho
+    refine ⟨as, ?_, allCommitted_of_good ck as hgood, ?_, ?_, ho⟩
+    · have h1 := combineAllV_of_P _ comms hag lcs as evals has
+      rw [combineAllV_factor] at h1
+      unfold verifierComms
+      cases hc : combineAccV comms lcs with
+      | error e => rw [hc] at h1; cases h1
+      | ok as' =>
+        rw [hc] at h1
+        simp only at h1 ⊢
+        injection h1 with h1; injection h1 with h1 _
+        subst h1
+        rw [construct_alignedV (as.map LCAcc.toV) (by
+          intro a ha
+          obtain ⟨b, hb, rfl⟩ := List.mem_map.1 ha
+          exact hal b hb), lcCommsV_toV]
+    · intro p hp
+      obtain ⟨a, ha, rfl⟩ := List.mem_map.1 hp
+      exact (hgood a ha).2
+    · intro g hg l hl p st c hlook
+      unfold lcPolys lcComms lcStates at hlook
+      rw [zip_maps, lookupLast_map] at hlook
+      cases hla : Marlin.lookupLast (fun (a : LCAcc F) => a.label) l as with
+      | none =>
+        have : Marlin.lookupLast (fun x => (fun (x : LPoly F × (Rand F × LComm F)) => x.1.label)
+            ((fun (a : LCAcc F) => ((⟨a.label, a.poly, a.bound, a.hb⟩ : LPoly F),
+              ((⟨a.rand, a.srand⟩ : Rand F), a.lcomm))) x)) l as = none := hla
+        rw [this] at hlook; cases hlook
+      | some a =>
+        have : Marlin.lookupLast (fun x => (fun (x : LPoly F × (Rand F × LComm F)) => x.1.label)
+            ((fun (a : LCAcc F) => ((⟨a.label, a.poly, a.bound, a.hb⟩ : LPoly F),
+              ((⟨a.rand, a.srand⟩ : Rand F), a.lcomm))) x)) l as = some a := hla
+        rw [this] at hlook
+        simp only [Option.map_some] at hlook
+        injection hlook with hlook
+        injection hlook with hp _
+        subst hp
+        have hrel := lookup_combined _ l lcs as has
+          (fun lc a h => (combineOneP_good ck _ hok lc a h).2.1) none none (Or.inl ⟨rfl, rfl⟩)
+        simp only at hrel
+        unfold Marlin.lookupLast at hla
+        rcases hrel with ⟨_, h2⟩ | ⟨lc, a', h1, h2, h3⟩
+        · rw [h2] at hla; cases hla
+        · rw [h2] at hla
+          injection hla with hla
+          subst hla
+          have hv := hev g hg l hl lc h1
+          rw [adjustEvals_eq_bump, lookupEval_bump, hv]
+          simp only [Option.map_some]
+          rw [(combineOneP_good ck _ hok lc a' h3).2.2 g.2.1]
+          congr 1; ring
+
 end IPA
 end PCV
